@@ -400,10 +400,34 @@ class ExprMixin:
             if isinstance(p, ast.Constant):
                 parts.append(p.value)
             else:
-                if p.format_spec is not None or p.conversion != -1:
-                    raise Unsupported("f-string format spec")
+                if p.conversion != -1:
+                    raise Unsupported("f-string conversion (!r / !s / !a)")
+                if p.format_spec is not None:
+                    parts.append(self.format_value(self.ev(p.value, st), p.format_spec, node, st))
+                    continue
                 parts.append(self.to_str(self.ev(p.value, st)))
         return self.concat_str(parts)
+
+    def format_value(self, v, spec_node, node, st):
+        """f"{v:spec}" == format(v, spec) for a constant spec.  Built in: the empty spec (str(v)) and `<N` / `>N` of a str
+        or an int (not bool): format(v, '>N') == str(v).rjust(N), '<N' == str(v).ljust(N) (blank fill, no sign-aware
+        alignment involved).  Every other spec goes to the sidecar's assumed contract EXTERNALS['builtins.format']
+        (value, spec string) - trusted base, listed by the property - or is refused."""
+        import re
+        if not (isinstance(spec_node, ast.JoinedStr) and all(isinstance(x, ast.Constant) and isinstance(x.value, str) for x in spec_node.values)):
+            raise Unsupported("f-string with a computed format spec")
+        spec = "".join(x.value for x in spec_node.values)
+        plain = is_str(v) or (is_int(v) and not isinstance(v, bool))
+        if spec == "" and plain:
+            return self.to_str(v)
+        m = re.fullmatch(r"([<>])([1-9][0-9]{0,2})", spec)
+        if m and plain:
+            return self.str_pad(to_z3(self.to_str(v)), int(m.group(2)), left=(m.group(1) == ">"))
+        ext = self.externals.get("builtins.format")
+        if ext is None:
+            raise Unsupported(f"f-string format spec {spec!r} (no assumed contract builtins.format in the sidecar)")
+        self.used_externals.add("builtins.format")
+        return ext(self, [v, spec], {}, node, st)
 
     def to_str(self, v):
         if is_str(v):
@@ -531,6 +555,15 @@ class ExprMixin:
         return self._NO_DUNDER
 
     def binop(self, op, a, b, node=None, st=None):
+        if not self.spec and (isinstance(a, VOpt) or isinstance(b, VOpt)):
+            # arithmetic on an Optional: TypeError exactly when it is None, otherwise the operation on its payload
+            # (found by tools/xcheck.py: the TypeError used to be unconditional, which cut off the normal path)
+            if isinstance(a, VOpt):
+                self.may_raise(a.isnone, "TypeError", node)
+                a = a.val
+            if isinstance(b, VOpt):
+                self.may_raise(b.isnone, "TypeError", node)
+                b = b.val
         if isinstance(a, VVec) or isinstance(b, VVec):
             return self.vec_binop(op, a, b, node)
         if isinstance(a, (VRef, VRec)) or isinstance(b, (VRef, VRec)):
@@ -767,6 +800,13 @@ class ExprMixin:
         if isinstance(cont, VList):
             if cont.elems is None:
                 return False
+            if getattr(self.sidecar, "FINITE_MEMBERSHIP", False):
+                # opt-in of the sidecar: a list whose length is syntactically bounded by a small constant (constant tables,
+                # their concatenations and case splits): x in L as the finite disjunction over the positions below the bound
+                # (the same meaning as the existential below, without a quantifier)
+                bound = _len_bound(to_z3(cont.length))
+                if bound is not None and bound <= 16:
+                    return OR(*[AND(k_ < to_z3(cont.length), self.eq(sel(cont.elems, z3.IntVal(k_)), x)) for k_ in range(bound)])
             q = z3.Int(uid("q"))
             return z3.Exists([q], z3.And(q >= 0, q < to_z3(cont.length), to_z3(self.eq(sel(cont.elems, q), x))))
         if isinstance(x, VOpt) and isinstance(cont, (VSet, VDict)) and cont.kshape[0] != "opt":
@@ -1343,6 +1383,20 @@ def ite_const_map(z, f):
             return z3.If(e.arg(0), a, b)
         return None
     return walk(z)
+
+
+def _len_bound(t):
+    """a constant upper bound of the integer term t when t is built from integer constants by if-then-else and +, else None"""
+    t = z3.simplify(t)
+    if z3.is_int_value(t):
+        return t.as_long()
+    if z3.is_app(t) and t.decl().kind() == z3.Z3_OP_ITE:
+        a, b = _len_bound(t.arg(1)), _len_bound(t.arg(2))
+        return None if a is None or b is None else max(a, b)
+    if z3.is_app(t) and t.decl().kind() == z3.Z3_OP_ADD:
+        parts = [_len_bound(c) for c in t.children()]
+        return None if any(p_ is None for p_ in parts) else sum(parts)
+    return None
 
 
 def _has_quant(e, seen=None):
